@@ -27,6 +27,8 @@ package config
 //@   modifies everything
 //@   ensures[C18:one-entry-per-item-in-order] ret1 == nil ==> len(ret0) == len(pluginList)
 //@   assert[C18:item-names-exactly-one-plugin] before "append(plugins": len(conf) == 1
+// the entry carries the name written in the item (the key of its one-element map)
+//@   assert[C18:entry-is-named-as-written] before "append(plugins": has(conf, name)
 //@   loop 1: invariant len(plugins) == rangeindex + 1 && cap(plugins) >= len(pluginList) && rangeindex + 1 <= len(pluginList)
 
 //@ func (*Config).getPlugins
